@@ -21,12 +21,22 @@ type zzAgglayer struct {
 	agglayer.AgglayerClientInterface
 	settled, pending *agglayertypes.CertificateHeader
 	all              []*agglayertypes.CertificateHeader
+	// transient RPC failures: the next failSettled / failPending calls of the respective query fail
+	failSettled, failPending int
 }
 
 func (a *zzAgglayer) GetLatestSettledCertificateHeader(ctx context.Context, n uint32) (*agglayertypes.CertificateHeader, error) {
+	if a.failSettled > 0 {
+		a.failSettled--
+		return nil, errors.New("agglayer unreachable")
+	}
 	return a.settled, nil
 }
 func (a *zzAgglayer) GetLatestPendingCertificateHeader(ctx context.Context, n uint32) (*agglayertypes.CertificateHeader, error) {
+	if a.failPending > 0 {
+		a.failPending--
+		return nil, errors.New("agglayer unreachable")
+	}
 	return a.pending, nil
 }
 func (a *zzAgglayer) GetCertificateHeader(ctx context.Context, id common.Hash) (*agglayertypes.CertificateHeader, error) {
@@ -171,6 +181,23 @@ func ZZVerif_C13_Recover() {
 
 	// restart
 	checker := statuschecker.NewCertStatusChecker(log.GetDefaultLogger(), st, ag, net)
+	if qf := zzverif.Param("QF"); qf != 0 {
+		// the first attempt meets an Agglayer whose latest-non-settled (1) or latest-settled (2) query fails: the attempt fails
+		// (CheckInitialStatus retries after a pause) and changes nothing
+		if qf == 1 {
+			ag.failPending = 1
+		} else {
+			ag.failSettled = 1
+		}
+		errQ := statuschecker.ZZVerifInitialStatusOnce(ctx, checker)
+		mid, errM := st.GetLastSentCertificateHeader()
+		zzverif.Assert("an attempt whose Agglayer query failed reports the failure", errQ != nil)
+		// (the poll of open certificates that precedes the reconciliation may have refreshed the record's status)
+		zzverif.Assert("and leaves the last record the same certificate", errM == nil && (before == nil) == (mid == nil) && (before == nil ||
+			(before.Height == mid.Height && before.CertificateID == mid.CertificateID && before.NewLocalExitRoot == mid.NewLocalExitRoot &&
+				before.FromBlock == mid.FromBlock && before.ToBlock == mid.ToBlock)))
+		zzverif.Reach("query failed")
+	}
 	err = statuschecker.ZZVerifInitialStatusOnce(ctx, checker)
 	after, errA := st.GetLastSentCertificateHeader()
 	zzverif.Assert("read after", errA == nil)
